@@ -43,7 +43,7 @@ import (
 // delivered for every sequence (history property).
 func init() {
 	register("C26", func(r *Report) {
-		r.Explanation = "Agreement conditions between the client library and the gateway, each necessary for interoperation (the end-to-end statement itself - every API call succeeds and every matching message reaches its handler for every call sequence - is a history property and is NOT decided): (R1) each side handles every packet type the other side can send (C23-R2 re-run); (R2) both sides implement the same exchange tables, each checked against the protocol table: gateway translation table and SUBACK mapping (C03-R1/R3), gateway QoS 1/2 step tables (C16-R3), client success-only-on-the-right-acknowledgement (C17-R1) and its receive side (C17-R3/R6); (R3) the sleep cycle: while the client sleeps the gateway buffers every packet, unconditionally and in order (C11-R1), delivers all of them and is asleep again after the wake-up PINGRESP (C11-R2) and the client's Sleep() from the awake state sends nothing and becomes asleep, from the active state it sends DISCONNECT(duration) - explored per client state; (R4) topic registration: a repeated REGISTER is accepted again (C16-R7), and 'fresh topic ID per pending registration of one name' on the gateway against 'second ID for a known name refused' on the client is reported (a burst on a not-yet-registered topic under a wildcard loses every message but the first: known finding); (R5) the client's matcher and subscribe/unsubscribe key agreement (C27-R2/R4); (R6) the message IDs that label API calls stay inside 1..0xFFFF for every call count (C29-R1/R4: an identifier 0 is a protocol violation at the broker)."
+		r.Explanation = "Agreement conditions between the client library and the gateway, each necessary for interoperation (the end-to-end statement itself - every API call succeeds and every matching message reaches its handler for every call sequence - is a history property and is NOT decided): (R1) each side handles every packet type the other side can send (C23-R2 re-run); (R2) both sides implement the same exchange tables, each checked against the protocol table: gateway translation table and SUBACK mapping (C03-R1/R3), gateway QoS 1/2 step tables (C16-R3), client success-only-on-the-right-acknowledgement (C17-R1) and its receive side (C17-R3/R6); (R3) the sleep cycle: while the client sleeps the gateway buffers every packet, unconditionally and in order (C11-R1), delivers all of them and is asleep again after the wake-up PINGRESP (C11-R2) and the client's Sleep() from the awake state sends nothing and becomes asleep, from the active state it sends DISCONNECT(duration) - explored per client state; (R4) topic registration: a repeated REGISTER is accepted again (C16-R7), neither side ever forgets or rebinds a topic ID during the session (C04-R6, C17-R9), every pending gateway REGISTER has a message ID of its own (C02-R5), and 'fresh topic ID per pending registration of one name' on the gateway against 'second ID for a known name refused' on the client is reported (a burst on a not-yet-registered topic under a wildcard loses every message but the first: known finding); (R5) the client's matcher and subscribe/unsubscribe key agreement (C27-R2/R4); (R6) the message IDs that label API calls stay inside 1..0xFFFF for every call count (C29-R1/R4: an identifier 0 is a protocol violation at the broker)."
 		r.floor("R1", 20)
 		r.floor("R2", 30)
 		r.floor("R3", 4)
@@ -63,6 +63,12 @@ func checkC26(c *Ctx, r *Report) {
 	// its range (an MQTT packet identifier 0 makes a conforming broker close the connection) - C29's sequence rules
 	importRulesF(c, r, "C29", map[string]string{"R1": "R6", "R4": "R6"}, nil)
 	importRulesF(c, r, "C16", map[string]string{"R7": "R4"}, nil)
+	// topic IDs mean the same on both sides for the whole session: the gateway never deletes or rebinds a registration
+	// (C04-R6), the client never forgets one (C17-R9); and each pending gateway REGISTER of a burst has its own
+	// message ID, probed free in the store (C02-R5)
+	importRulesF(c, r, "C04", map[string]string{"R6": "R4"}, nil)
+	importRulesF(c, r, "C17", map[string]string{"R9": "R4"}, nil)
+	importRulesF(c, r, "C02", map[string]string{"R5": "R4"}, nil)
 	importRulesF(c, r, "C27", map[string]string{"R2": "R5", "R4": "R5"}, nil)
 
 	cm, err := c.newClientModel()
